@@ -8,41 +8,6 @@ open PV.C06
 
 /-! ### top level: `parse_fstring(0)` against the reference, up to merging of adjacent literals -/
 
-def EndsOk (values : List Piece) : Prop :=
-  values = [] ∨ ∃ vs t o c sp, values = vs ++ [Piece.field t o c sp]
-
-theorem mergeGo_split : ∀ (xs : List Piece) (acc : List Nat) (t : List Nat) (o : Nat) (c : Conv)
-    (sp : Option (List Piece)) (ys : List Piece),
-    Spec.mergeGo acc (xs ++ Piece.field t o c sp :: ys) =
-      Spec.mergeGo acc (xs ++ [Piece.field t o c sp]) ++ Spec.mergeGo [] ys := by
-  intro xs
-  induction xs with
-  | nil => intro acc t o c sp ys; simp [Spec.mergeGo]
-  | cons x xs ih =>
-    intro acc t o c sp ys
-    cases x with
-    | lit s => simp only [List.cons_append, Spec.mergeGo]; exact ih _ _ _ _ _ _
-    | field t' o' c' sp' =>
-      simp only [List.cons_append, Spec.mergeGo]
-      rw [ih]; simp
-
-theorem merge_append (values L : List Piece) (h : EndsOk values) :
-    Spec.merge (values ++ L) = Spec.merge values ++ Spec.merge L := by
-  rcases h with rfl | ⟨vs, t, o, c, sp, rfl⟩
-  · simp [Spec.merge, Spec.mergeGo]
-  · unfold Spec.merge
-    rw [List.append_assoc, List.singleton_append, mergeGo_split]
-
-theorem merge_flush (values : List Piece) (content : List Nat) (h : EndsOk values) :
-    Spec.merge (Spec.Acc.flush ⟨values, content⟩) = Spec.Acc.flush ⟨Spec.merge values, content⟩ := by
-  unfold Spec.Acc.flush
-  by_cases hc : content.isEmpty = true
-  · simp [hc]
-  · simp only [hc, Bool.false_eq_true, if_false]
-    rw [merge_append _ _ h]
-    have : content ≠ [] := by intro e; subst e; simp at hc
-    simp [Spec.merge, Spec.mergeGo, this]
-
 /-- `fstringLoop` at nesting 0 agrees with the reference `parts` at level 0, up to the merging the
     reference does on the fly and `parse_strings` does afterwards -/
 def P0 (lookup : List Nat → Option Nat) (kind : Kind) (n : Nat) : Prop :=
@@ -129,7 +94,7 @@ theorem P0_step (lookup : List Nat → Option Nat) (hl : LookupOk lookup) (kind 
           | some p =>
             obtain ⟨echo, f, rest, off'⟩ := p
             simp only [hfld] at h
-            obtain ⟨hsuf1, hlen, _, ⟨ft, fo, fc, fsp, rfl⟩, hm1⟩ := hF 0 cs (off + 1) echo _ rest off' hfld hns'
+            obtain ⟨hsuf1, hlen, ⟨ft, fo, fc, fsp, rfl⟩, hm1⟩ := hF 0 cs (off + 1) echo _ rest off' hfld hns'
             intro fuel hf
             simp only [List.length_cons] at hf
             match fuel, hf with
@@ -137,36 +102,7 @@ theorem P0_step (lookup : List Nat → Option Nat) (hl : LookupOk lookup) (kind 
               obtain ⟨pcs, hfv, hpo⟩ := hm1 f1 (by omega)
               have hl1 := hsuf1.length_le
               -- the new `values` of the model and their merge
-              have key : Spec.merge (Spec.Acc.flush ⟨values, content⟩ ++ pcs) =
-                  Spec.Acc.flush ⟨pieces, content ++ echo⟩ ++ [Piece.field ft fo fc fsp] ∧
-                  EndsOk (Spec.Acc.flush ⟨values, content⟩ ++ pcs) := by
-                have hends : ∀ (L : List Piece), EndsOk (L ++ [Piece.field ft fo fc fsp]) :=
-                  fun L => Or.inr ⟨L, ft, fo, fc, fsp, rfl⟩
-                rcases hpo with ⟨rfl, rfl⟩ | ⟨a, b, rfl, ha, rfl⟩
-                · refine ⟨?_, hends _⟩
-                  unfold Spec.Acc.flush
-                  by_cases hc : content = []
-                  · subst hc
-                    simp only [List.isEmpty_nil, if_true, List.append_nil]
-                    rw [merge_append _ _ hev, hmv]
-                    simp [Spec.merge, Spec.mergeGo]
-                  · simp only [List.isEmpty_iff, hc, if_false, List.append_nil, List.append_assoc]
-                    rw [merge_append _ _ hev, hmv]
-                    simp [Spec.merge, Spec.mergeGo, hc]
-                · refine ⟨?_, ?_⟩
-                  · have hab : a ++ b ≠ [] := by simp [ha]
-                    unfold Spec.Acc.flush
-                    by_cases hc : content = []
-                    · subst hc
-                      simp only [List.isEmpty_nil, if_true, List.nil_append, List.isEmpty_iff, hab, if_false]
-                      rw [merge_append _ _ hev, hmv]
-                      simp [Spec.merge, Spec.mergeGo, hab]
-                    · have hcab : content ++ (a ++ b) ≠ [] := by simp [hc]
-                      simp only [List.isEmpty_iff, hc, hcab, if_false, List.append_assoc]
-                      rw [merge_append _ _ hev, hmv]
-                      simp [Spec.merge, Spec.mergeGo, hc]
-                  · have := hends (Spec.Acc.flush ⟨values, content⟩ ++ [Piece.lit a, Piece.lit b])
-                    simpa using this
+              have key := merge_after_field values pieces pcs content echo ft fo fc fsp hmv hev hpo
               obtain ⟨qs, e, hq⟩ := h0 true _ [] rest off' ps r o h (hns'.suffix hsuf1) _ key.1 key.2 f1 (by omega)
               refine ⟨qs, ?_, hq⟩
               have hcs : cs ≠ [] := by intro e; subst e; simp at hlen
